@@ -777,6 +777,11 @@ func main() {
 					}
 					time.Sleep(time.Millisecond)
 				}
+				// writes through the isolated old leader are appended to its log and never commit: a suffix
+				// that the new leader's first append has to cut off (and that must stay cut off)
+				forceVia = l
+				client(3)
+				forceVia = nil
 				if l2 != nil {
 					forceVia = l2
 					client(1)
